@@ -63,6 +63,7 @@ pub fn install(addr: std::net::SocketAddr) -> SimIncoming {
     std::hint::black_box(keep);
     let (run, _thorough) = load_run();
     HASH_STREAM.store(run.hash_seed, Ordering::SeqCst);
+    *BLOCKING_RNG.lock().unwrap() = Some(simcommon::Rng::new(run.hash_seed ^ 0xb10c));
     let net: NetRef = Arc::new(Mutex::new(Net::default()));
     let n2 = net.clone();
     tokio::spawn(async move {
@@ -85,6 +86,20 @@ struct Client {
     fully_drained: bool,
     reqs: Vec<ReqSpec>,
     is_probe: bool,
+}
+
+// ---- completion order of work handed to the blocking pool: the tokio stand-in
+// runs such work as ordinary tasks and asks here how many scheduler rounds each
+// should wait first, so that the order in which overlapping requests finish
+// is explored (seeded by the run) instead of always being first-in-first-out.
+static BLOCKING_RNG: Mutex<Option<simcommon::Rng>> = Mutex::new(None);
+
+pub fn blocking_delay() -> u32 {
+    let mut g = BLOCKING_RNG.lock().unwrap();
+    match g.as_mut() {
+        Some(r) => r.below(4) as u32,
+        None => 0,
+    }
 }
 
 // ---- idleness signal: the tokio stand-in installs `on_park` as the runtime's
@@ -189,6 +204,7 @@ async fn drive(net: NetRef, run: RunDesc, port: u16) -> Value {
     let mut liveness_failures: Vec<String> = vec![];
     quiesce(&net).await;
     let mut steps = 0u64;
+    let mut holding = false;
     let mut quiesce_rounds = 0u64;
     let n_actions = run.actions.len();
     let mut actions: Vec<Action> = run.actions.clone();
@@ -273,6 +289,7 @@ async fn drive(net: NetRef, run: RunDesc, port: u16) -> Value {
                     }
                 }
             }
+            Action::Hold | Action::Release => {}
             Action::Probe => {
                 let id = 1000 + probes.len();
                 let reqs = vec![
@@ -301,6 +318,15 @@ async fn drive(net: NetRef, run: RunDesc, port: u16) -> Value {
                 let len = script.len();
                 probes.push(Client { script, pos: len, st: Some(st), faulted: false, fully_drained: true, reqs, is_probe: true });
             }
+        }
+        match a {
+            Action::Hold => holding = true,
+            Action::Release => holding = false,
+            _ => {}
+        }
+        if holding && !matches!(a, Action::Probe) {
+            bump("batched_actions", 1, &mut stats);
+            continue;
         }
         quiesce_rounds += quiesce(&net).await;
         if let Action::Probe = a {
